@@ -283,7 +283,7 @@ LOOKUPS = (
     "nodes", "nodes_by_name", "links", "links_by_name", "nodes_by_link",
     "origins", "origins_by_name", "origins_by_node",
     "destinations", "destinations_by_name", "destinations_by_node",
-    "in_links", "out_links",
+    "in_links", "out_links", "links_of_bunch",
 )
 
 
@@ -307,6 +307,11 @@ def observe(net, U: Universe, name: str, s_nodes=None):
         for n in list(net.graph.nodes):
             out[L(n)] = sorted(tuple(L(x) for x in t) for t in view(n))
         return out
+    if name == "links_of_bunch":
+        # the documented nbunch form: a (hashable) tuple of ALL nodes of the universe, present in the graph or not
+        bunch = tuple(o for lab, o in U.obj.items() if U.kind[lab] == "node")
+        return {"out": sorted(tuple(L(x) for x in t) for t in net.out_links(bunch)),
+                "in": sorted(tuple(L(x) for x in t) for t in net.in_links(bunch))}
     raise ValueError(name)
 
 
@@ -354,6 +359,11 @@ def check_lookup(name: str, got, s: Snap):
                 return f"{name}: values {sorted(got.values())}, graph has {sorted(set(exp.values()))}"
             return None
         return _check_multi(name, got, places)
+    if name == "links_of_bunch":
+        exp = sorted((u, v, l) for (u, v), l in s.edges.items())
+        if got["out"] != exp or got["in"] != exp:
+            return f"links of the bunch of all nodes: out {got['out']}, in {got['in']}, graph has {exp}"
+        return None
     if name in ("in_links", "out_links"):
         exp = {n: [] for n in s.nodes}
         for (u, v), l in s.edges.items():
